@@ -164,6 +164,38 @@ impl Write for FaultSink {
     }
 }
 
+/// the sink behind parquet's `AsyncFileWriter`: `write(Bytes)` takes the whole buffer or fails (the trait
+/// has no partial writes), `complete` is the flush
+pub struct FaultAsync(pub Shared);
+
+impl parquet::arrow::async_writer::AsyncFileWriter for FaultAsync {
+    fn write(&mut self, bs: Bytes) -> futures::future::BoxFuture<'_, parquet::errors::Result<()>> {
+        let mut d = self.0.lock().unwrap();
+        let (_, err) = d.enter(OP_WRITE, bs.len());
+        let r = match err {
+            Some(e) => Err(ParquetError::External(Box::new(e))),
+            None => {
+                d.acc.extend_from_slice(&bs);
+                d.rets.push(bs.len() as i64);
+                Ok(())
+            }
+        };
+        Box::pin(std::future::ready(r))
+    }
+    fn complete(&mut self) -> futures::future::BoxFuture<'_, parquet::errors::Result<()>> {
+        let mut d = self.0.lock().unwrap();
+        let (_, err) = d.enter(OP_FLUSH, 0);
+        let r = match err {
+            Some(e) => Err(ParquetError::External(Box::new(e))),
+            None => {
+                d.rets.push(0);
+                Ok(())
+            }
+        };
+        Box::pin(std::future::ready(r))
+    }
+}
+
 // ---------------------------------------------------------------- source
 
 /// `Read + Seek` over an in-memory file
